@@ -37,9 +37,9 @@ func gen(r *rand.Rand, tier string, i int) input {
 	} else {
 		t, v = wkp.GenType(r), wkp.GenVersion(r)
 	}
-	o := wkp.GenOpts{Big: r.IntN(5) == 0, Wild: r.IntN(5) == 0}
+	o := wkp.GenOpts{Big: r.IntN(8) == 0, Wild: r.IntN(5) == 0}
 	in := input{V: v, F: wkp.GenFrame(r, t, v, o)}
-	if r.IntN(25) == 0 {
+	if r.IntN(60) == 0 {
 		wkp.Boundary(r, &in.F)
 	}
 	switch r.IntN(4) {
